@@ -38,10 +38,15 @@ Fixpoint bb_process_runs (o : opts) (sizes : list (name * N)) (prev : option nam
       match lookup c sizes with
       | None => Err E_UNKNOWN_CHROM
       | Some len =>
-          let (ids', id) := get_id ids c in
-          do _ <- bb_check_chrom len es;
-          do (ids'', outs) <- bb_process_runs o sizes (Some c) ids' rest;
-          Ok (ids'', {| bc_id := id; bc_name := c; bc_len := len; bc_es := es |} :: outs)
+          (* a chromosome whose run reappears is refused (/repo 6b10d42) *)
+          match lookup c ids with
+          | Some _ => Err E_CHROM_SPLIT
+          | None =>
+              let (ids', id) := get_id ids c in
+              do _ <- bb_check_chrom len es;
+              do (ids'', outs) <- bb_process_runs o sizes (Some c) ids' rest;
+              Ok (ids'', {| bc_id := id; bc_name := c; bc_len := len; bc_es := es |} :: outs)
+          end
       end
   end.
 
